@@ -71,7 +71,7 @@ Theorem C14_any_second_producer_rejected : forall fixed l b o f prev, LInv l -> 
 Proof. exact any_second_producer_rejected. Qed.
 Print Assumptions C14_any_second_producer_rejected.
 
-Theorem C14_build_error_aborts_load : forall fixed rec fs buf filename n l s vs pb vs1 s1 m, parser_read fixed (parse_fuel buf) s vs = SOk (Some (SBuild pb), vs1) s1 -> loader_add_build fixed l filename vs1 pb = Err m -> stmts_loop fixed rec fs buf filename (S n) l s vs = Err m.
+Theorem C14_build_error_aborts_load : forall fixed rec fs reading buf filename n l s vs pb vs1 s1 m, parser_read fixed (parse_fuel buf) s vs = SOk (Some (SBuild pb), vs1) s1 -> loader_add_build fixed l filename vs1 pb = Err m -> stmts_loop fixed rec fs reading buf filename (S n) l s vs = Err m.
 Proof. exact stmts_loop_build_err. Qed.
 Print Assumptions C14_build_error_aborts_load.
 
